@@ -648,6 +648,19 @@ func listCase(sc *Scenario) {
 	scjs, _ := json.Marshal(sc)
 	run.Case(id, strings.TrimRight(model, " ")+" J"+common.Hex(string(scjs)), obs)
 	run.TracesAgainstImpl++
+	// the same run against the page loop on strings (Model/PagingUrl.v loop_s): raw requests, byte for byte
+	redirected := false
+	var rawReqs []string
+	for _, x := range reg.Log {
+		redirected = redirected || x.SentPath != x.Path
+		rawReqs = append(rawReqs, common.Hex(x.SentPath)+"?"+common.Hex(x.RawQuery))
+	}
+	if !redirected && len(rawReqs) > 0 {
+		csid := run.NewID()
+		run.Case(csid, "CS "+common.Hex("http")+" "+common.Hex(host)+" "+strings.TrimRight(strings.TrimPrefix(model, "C "), " "),
+			fmt.Sprintf("R %s P %d %s O %s", strings.Join(rawReqs, "|"), len(pages), ps, outcome))
+		run.Count("string_loop")
+	}
 
 	stringCases(sc, reg.Log, outcome)
 
@@ -2197,7 +2210,7 @@ func coverageFloors() {
 		return n
 	}
 	floors := map[string]int{
-		"string_first_request": 1000, "string_next_request_NEXT": 1000, "string_next_request_NONE": 300, "string_next_request_ERR": 10,
+		"string_loop": 2000, "string_first_request": 1000, "string_next_request_NEXT": 1000, "string_next_request_NONE": 300, "string_next_request_ERR": 10,
 		"string_set_query": 300, "string_escape": 200, "string_resolve_OK": 200, "string_resolve_ER": 50,
 		"cursor_opaque": 100, "hidden_entries": 100, "list_empty_page_with_link": 20, "link_raw_pairs": 50, "link_other_path": 50, "link_after_redirect": 30, "link_further_values": 100, "link_rel_first_stream": 5,
 		"list_link_missing_midway": 5, "json_shape_variant": 100, "registry_page": 1000, "exhaustive": 200,
